@@ -46,9 +46,13 @@ def n_cases(tier):
 def gen_case(rng, tier, index):
     if tier == "thorough":
         # deeper: longer programs, more large geometries (8x12, 16x24, random up to 16x24)
-        return gen.gen_program(rng, n_ops=rng.randint(1, 12), small=rng.random() < 0.5)
-    small = rng.random() < 0.8
-    return gen.gen_program(rng, small=small)
+        case = gen.gen_program(rng, n_ops=rng.randint(1, 12), small=rng.random() < 0.5, nonlatin=True)
+    else:
+        small = rng.random() < 0.8
+        case = gen.gen_program(rng, small=small, nonlatin=True)
+    if rng.random() < 0.25 or any(ord(ch) > 255 for d in case["worktable"] for ch in d["name"]):
+        case["save_file"] = True  # the file the robot executes is looked at as well
+    return case
 
 
 def _apply_fix_k1(ctx, case, op, sdesc):
@@ -72,6 +76,40 @@ def _apply_fix_k1(ctx, case, op, sdesc):
         return rec
 
     return fix
+
+
+def _judge_saved_file(ctx, case, w):
+    """The records that were interpreted above are what the robot gets to see: the saved file holds exactly them
+    (a refusal to save - a rack label outside Latin-1 - emits nothing and is not judged)."""
+    import os
+
+    from .. import env
+
+    records = list(w.wl)
+    d = env.workdir("C01") / str(os.getpid())
+    d.mkdir(parents=True, exist_ok=True)
+    path = d / "program.gwl"
+    if path.exists():
+        path.unlink()
+    try:
+        w.wl.save(path)
+    except Exception as e:
+        ctx.count("save_refused:" + type(e).__name__)
+        return
+    try:
+        raw = path.read_bytes()
+    except OSError:
+        raw = None
+    text = raw.decode("latin-1") if raw is not None else None
+    got = (text.split("\r\n") if text else []) if text is not None else None
+    ctx.count("saved_files_compared")
+    ctx.check("C01.saved_file_holds_the_interpreted_records", got == records,
+              lambda: {"records": records[:20], "file_records": None if got is None else got[:20],
+                       "labware_names": [d_["name"] for d_ in case["worktable"]]})
+    try:
+        path.unlink()
+    except OSError:
+        pass
 
 
 def run_case(ctx, case):
@@ -195,6 +233,8 @@ def run_case(ctx, case):
             progmon.compare_state(ctx, "C01", case, w, interp, grid, op=sub, opi=opi)
         if stop:
             break
+    if case.get("save_file"):
+        _judge_saved_file(ctx, case, w)
     ctx.case(case, moved)
     if moved and grid:
         ctx.count("grid_programs")
